@@ -171,6 +171,26 @@ theorem member_option_of_ref_keeps_null (ρ : Env) (fs : Fields) :
     (schemaOf (.opt (.struct fs))).valid ρ .null = true := by
   rw [schemaOf_opt_valid]; simp [J.isNull]
 
+/-! ### Untagged unions: `anyOf`, not `oneOf` -/
+
+/-- the two alternatives of
+`#[serde(untagged)] enum Shape { Plain { value: u32 }, Labeled { value: u32, label: String } }` -/
+def shapeAlts : TyList :=
+  .cons (.struct (.cons "value" (.int .w32 false) false .nil))
+    (.cons (.struct (.cons "value" (.int .w32 false) false (.cons "label" .str false .nil))) .nil)
+
+def shapeValue : J := .obj [("value", .num 1), ("label", .str "x")]
+
+/-- A `Labeled` value matches both alternatives: serde accepts it and the
+derived `anyOf` is valid, but "exactly one alternative" (`oneOf`) would reject
+it — so publishing such a type as `oneOf` would make the document lie about
+the bodies the server sends and accepts. -/
+theorem overlapping_untagged_needs_anyOf :
+    (decodeJson (.untagged shapeAlts) shapeValue).isSome = true
+    ∧ (schemaOf (.untagged shapeAlts)).valid ⟨fun _ _ => true, fun _ _ => true⟩ shapeValue = true
+    ∧ exactlyOne ((schemaListOf shapeAlts).vals ⟨fun _ _ => true, fun _ _ => true⟩ shapeValue) = false := by
+  decide
+
 /-! ### Errors -/
 
 /-- **C07 (framework error bodies).**  Every body `HttpError::into_response`
